@@ -109,10 +109,10 @@ pub fn cells() -> Vec<Cell> {
 }
 
 /// Fails the first open of a path with the given suffix.
-struct FailOpenOf {
-    suffix: String,
-    errno: i32,
-    done: std::sync::atomic::AtomicBool,
+pub struct FailOpenOf {
+    pub suffix: String,
+    pub errno: i32,
+    pub done: std::sync::atomic::AtomicBool,
 }
 
 impl crate::shim::Controller for FailOpenOf {
